@@ -40,13 +40,19 @@ CHECKS = {
                      "truncation point inside a record) is extended by six hostile tails, opened, extended by a commit and reopened.",
                 note="tails: 64 zero bytes, 37 pseudo-random bytes, length 0x7ffffff0, header announcing more bytes than follow, "
                      "complete record with wrong checksum, bit flip in the last byte"),
+    "C26": dict(ref="5 C26", tech="TLC model checking of BTree.tla + TLA+ trace validation (BTreeTrace) of the real B-tree",
+                text="BTree.tla transcribes insert/split/delete/cursor with page capacity 2; TLC checks scan/lookup/delete against the "
+                     "sorted-multimap ghost exhaustively for unique keys, and reproduces the equal-keys defect whose counterexample is "
+                     "replayed on the real tree; seeded sequences on the real tree (fan-out 2, 4, ~400, with reopen) are judged step by "
+                     "step by BTreeTrace.tla.",
+                note="known findings KF-09/KF-10 (equal keys)"),
     "C28": dict(ref="5 C28", tech="TLA+ trace validation (StorageTrace)",
                 text=TRACE_TXT + "close, vacuum, reopen, dump, write, reopen.",
                 note="vacuum of a cleanly closed database only"),
 }
 
 # properties whose check has been run green on the unchanged tree
-ENABLED = ["C01", "C02", "C04", "C05", "C06", "C07", "C08", "C17", "C28"]
+ENABLED = ["C01", "C02", "C04", "C05", "C06", "C07", "C08", "C17", "C26", "C28"]
 
 NOT_APPLICABLE = {
     "C16": "quantifies over arbitrary byte strings and resource exhaustion; no state machine to specify, a fuzzer's job (DESIGN.md 6)",
